@@ -29,6 +29,7 @@
   join()           [queue.join] → True
   join(t)          [cond.acquire] (unfinished = 0 → True) · [cond.wait] → unfinished = 0
   result(t)        [fut.wait]
+  done()           [fut.is_set] → the future's flag
 
   The queue's own mutex is a leaf lock (no operation inside its critical sections), so queue operations —
   and the `with all_tasks_done:` block of `join(t)` up to its `wait` — are atomic steps.
@@ -94,6 +95,7 @@ inductive CPc where
   | joinQ
   | jtAcq | jtWait (notified : Bool)
   | futWait (t : Nat)
+  | futPoll (t : Nat)
   deriving DecidableEq, Repr
 
 structure Client where
@@ -141,6 +143,7 @@ inductive Op where
   | eventIsSet | eventSet | eventClear | lockAcquire | lockRelease
   | queueQsize | queuePut | queueGet | queueGetNowait | queueTaskDone | queueJoin
   | threadIsAlive | threadJoin | condAcquire | condWait | futWait | futSet | taskBegin | taskEnd (o : Outcome)
+  | callDone (t : Nat) | futIsSet
   deriving DecidableEq, Repr
 
 structure Action where
@@ -325,6 +328,8 @@ def clientStep (s : State) (i : Nat) (c : Client) (op : Op) (tmo : Bool) : Optio
     some (setClient { s with tasks := s.tasks ++ [{ creator := i }] } i { pc := .enqAcq s.tasks.length, ret := .none })
   | .idle, .callWait t, false =>
     if waitable s t then some (setClient s i { pc := .futWait t, ret := .none }) else none
+  | .idle, .callDone t, false =>
+    if waitable s t then some (setClient s i { pc := .futPoll t, ret := .none }) else none
   -- start
   | .startIsSet, .eventIsSet, false =>
     some (setClient s i (if s.stop then { c with pc := .startClear } else { pc := .idle, ret := .unit }))
@@ -428,6 +433,8 @@ def clientStep (s : State) (i : Nat) (c : Client) (op : Op) (tmo : Bool) : Optio
   | .futWait t, .futWait, false =>
     if futReady s t then some (setClient s i { pc := .idle, ret := futRet s t }) else none
   | .futWait _, .futWait, true => some (setClient s i { pc := .idle, ret := .timeout })
+  -- FutureResult.done(): one read of the future's event flag, never blocks
+  | .futPoll t, .futIsSet, false => some (setClient s i { pc := .idle, ret := .bool (futReady s t) })
   | _, _, _ => none
 
 /-- The transition function. -/
@@ -531,5 +538,12 @@ def startRollbackSpec : Bool × Bool × Bool := (true, true, true)
     the task may lack (`getattr(method, "__name__", …)`, never `method.__name__`): the handler cannot raise, the worker
     goes on to `task_done` and its accounting (`futSet → taskDone → finAcq`) whatever the task object is. -/
 def runHandlerSafeSpec : Bool := true
+/-- `EventData.set` / `EventData.raise_exception` (the two calls `FutureResult.execute` makes at the end of a task):
+    `(method, fields stored before the event's flag is raised, what is executed after it)`.  Both fields are in place
+    when the flag goes up and nothing follows: the `fut.set` step may therefore raise `futDone` and publish `futVal`
+    at once, and a client that reads the future at ANY moment after the flag (the harness schedules one between the
+    flag and the return of `Event.set()`: `fut.published`) finds what `task.end` chose. -/
+def futurePublishesLastSpec : List (String × List String × List String) :=
+  [("set", ["__data", "__exception"], []), ("raise_exception", ["__data", "__exception"], [])]
 
 end JRV.Pool
